@@ -221,7 +221,31 @@ fn ed_search(maxlen: usize, alpha: u8) -> i32 {
             }
         }
     }
-    println!("ed-search: {} strings, no mismatch", all.len());
+    // long strings (top bits of the 64-bit vector): |a| in {62,63,64} over a small alphabet,
+    // short and long |b|, pseudo-random, both argument orders
+    let mut rng = Lcg(0x1c5);
+    for trial in 0..20000u32 {
+        let la = 62 + (trial % 3) as usize;
+        let lb = match trial % 5 { 0 => 0, 1 => 3, 2 => 17, 3 => 40, _ => 64 };
+        let k = 2 + (rng.next() % 5) as u8;
+        let a: Vec<u8> = (0..la).map(|i| if i + 1 == la && trial % 2 == 0 { 63 } else { (rng.next() % k as u64) as u8 }).collect();
+        let b: Vec<u8> = (0..lb).map(|_| (rng.next() % k as u64) as u8).collect();
+        let mut x = [0u8; 64];
+        let mut y = [0u8; 64];
+        x[..la].copy_from_slice(&a);
+        y[..lb].copy_from_slice(&b);
+        let spec = spec_edit_distance::<64>(&x, la, &y, lb);
+        let mut pa = BlockHashPositionArray::new();
+        pa.init_from(&a);
+        let mut pb = BlockHashPositionArray::new();
+        pb.init_from(&b);
+        let (r1, r2) = (std::panic::catch_unwind(|| pa.edit_distance(&b)), std::panic::catch_unwind(|| pb.edit_distance(&a)));
+        if r1.as_ref().ok() != Some(&spec) || r2.as_ref().ok() != Some(&spec) {
+            println!("ed-mismatch a={:?} b={:?} real(a,b)={:?} real(b,a)={:?} spec={}", a, b, r1.ok(), r2.ok(), spec);
+            return 1;
+        }
+    }
+    println!("ed-search: {} short strings and 20000 long pairs, no mismatch", all.len());
     0
 }
 
